@@ -11,6 +11,7 @@ package lsm
 //@   property C36
 //@   exit [false-if-needed] result && lm != nil && lm.manifestMgr != nil ==> (forall gid uint64 :: has(ptrs, gid) ==> (ptrs[gid].Segment == 0 || id < ptrs[gid].Segment) && (ptrs[gid].SegmentIndex == 0 || math(id) < math(ptrs[gid].SegmentIndex)))
 //@   ghost lastCanRemove = result
+//@   ghost lastCanRemoveID = id
 //@   loop 1 invariant [seen-below] lm != nil && (forall gid uint64 :: seen(gid) ==> (ptrs[gid].Segment == 0 || id < ptrs[gid].Segment) && (ptrs[gid].SegmentIndex == 0 || math(id) < math(ptrs[gid].SegmentIndex)))
 //@   modifies nothing
 
@@ -48,6 +49,8 @@ package lsm
 //@ ghost var walRemovals Int
 //@ ghost var sawValidEntry bool
 //@ ghost var lastCanRemove bool
+//@ ghost var lastCanRemoveID uint32
+//@ ghost var removedWithoutOwnPermission bool
 //@ ghost var removalSawEdits Int
 //@ ghost var removalSawCan bool
 //@ ghost var removalSawEntry bool
@@ -61,6 +64,7 @@ package lsm
 //@   ghost removalSawEdits = editsLogged
 //@   ghost removalSawCan = lastCanRemove
 //@   ghost removalSawEntry = sawValidEntry
+//@   ghost removedWithoutOwnPermission = removedWithoutOwnPermission || !(lastCanRemove && lastCanRemoveID == id)
 //@   modifies nothing
 //@ func github.com/feichai0017/NoKV/utils::(Iterator).Valid
 //@   trusted
@@ -188,3 +192,42 @@ package lsm
 //@   ensures [ingest-buffer-before-main-tables] lh.levelNum != 0 && mainSearches > old(mainSearches) ==> mainSawIngest > old(ingestSearches)
 //@   ensures [both-consulted-unless-error] lh.levelNum != 0 && result1 == nil ==> ingestSearches == old(ingestSearches) + 1 && mainSearches == old(mainSearches) + 1
 //@   ensures [found-means-a-source-hit] result1 == nil ==> result != nil
+
+// C36 (recovery half): the cleanup of WAL segments at or below the flush checkpoint asks
+// canRemoveWalSegment for EACH segment it deletes (a permission for one segment says
+// nothing about the next one: raft groups may still need it).
+//@ func github.com/feichai0017/NoKV/wal::(*Manager).ListSegments
+//@   trusted
+//@   modifies nothing
+//@ func github.com/feichai0017/NoKV/wal::(*Manager).SwitchSegment
+//@   trusted
+//@   modifies nothing
+//@ func (*levelManager).logPointer
+//@   trusted
+//@   modifies nothing
+//@ func (*LSM).openMemTable
+//@   trusted
+//@   ensures [table-or-error] result1 == nil ==> result != nil
+//@   modifies nothing
+//@ func (*LSM).NewMemtable
+//@   trusted
+//@   modifies nothing
+//@ func (*memTable).Size
+//@   trusted
+//@   modifies nothing
+//@ func github.com/feichai0017/NoKV/utils::Panic
+//@   trusted
+//@   modifies nothing
+//@ func github.com/feichai0017/NoKV/utils::CondPanic
+//@   trusted
+//@   modifies nothing
+//@ func github.com/feichai0017/NoKV/utils::Err
+//@   trusted
+//@   modifies nothing
+//@ func (*LSM).recovery
+//@   property C36
+//@   requires lsm != nil && lsm.levels != nil && lsm.wal != nil && !removedWithoutOwnPermission
+//@   ensures [each-removed-segment-was-cleared] !removedWithoutOwnPermission
+//@   loop 1 invariant [listing] !removedWithoutOwnPermission && lsm != nil
+//@   loop 2 invariant [cleaning] !removedWithoutOwnPermission && lsm != nil
+//@   loop 3 invariant [opening] !removedWithoutOwnPermission && lsm != nil
